@@ -2091,9 +2091,60 @@ def undefined_fluents_all_handled(idx: Index, rep: Report, rule: str) -> None:
         rep.check(ok, rule, "every fluent with undefined values is handled", f.loc(a), construct=norm(a)[:100], detail="" if ok else "only a filtered part of the fluents with undefined initial values gets a value: the others stay undefined and the compiled problem still has UNDEFINED_INITIAL_NUMERIC, which resulting_problem_kind declares removed", function=f.qualname)
 
 
+READD_ITEM = {"add_precondition": "preconditions", "add_condition": "conditions", "add_effect": "effects", "_add_effect_instance": "effects", "add_increase_effect": "effects", "add_decrease_effect": "effects"}
+READD = {"add_goal": "goals", "add_timed_goal": "timed_goals", "add_trajectory_constraint": "trajectory_constraints", "add_quality_metric": "quality_metrics", "add_timed_effect": "timed_effects", "_add_effect_instance": "timed_effects"}
+
+
+def rebuilt_collections_cleared(idx: Index, rep: Report, rule: str) -> None:
+    """A compiler that starts from `problem.clone()` and re-adds the rewritten goals / timed goals / trajectory
+    constraints / metrics / timed effects of the original (a loop over `<original>.<collection>` that calls
+    `<clone>.add_…`) must have emptied that collection of the clone first: otherwise the un-rewritten originals stay in
+    the result next to their rewriting, with the very features the compiler declares to have removed."""
+    n = 0
+    for f in idx.all_funcs():
+        if not f.module.name.startswith("unified_planning.engines.compilers."):
+            continue
+        clones = {a.targets[0].id for a in walk_no_nested(f.node) if isinstance(a, ast.Assign) and len(a.targets) == 1 and isinstance(a.targets[0], ast.Name) and isinstance(a.value, ast.Call) and call_name(a.value) == "clone"}
+        if not clones:
+            continue
+        # elements of a clone (its actions, looked up or iterated) are copies too
+        parts = set()
+        for a in walk_no_nested(f.node):
+            if isinstance(a, ast.For) and isinstance(a.target, ast.Name) and any(isinstance(x, ast.Name) and x.id in clones for x in ast.walk(a.iter)):
+                parts.add(a.target.id)
+            if isinstance(a, ast.Assign) and len(a.targets) == 1 and isinstance(a.targets[0], ast.Name) and isinstance(a.value, ast.Call) and isinstance(a.value.func, ast.Attribute) and isinstance(a.value.func.value, ast.Name) and a.value.func.value.id in clones and a.value.func.attr != "clone":
+                parts.add(a.targets[0].id)
+        cfg = None
+        for l in walk_no_nested(f.node):
+            if not isinstance(l, ast.For):
+                continue
+            colls = {x.attr for x in ast.walk(l.iter) if isinstance(x, ast.Attribute)}
+            adds = {}
+            for c in ast.walk(l):
+                if isinstance(c, ast.Call) and isinstance(c.func, ast.Attribute) and isinstance(c.func.value, ast.Name):
+                    r = c.func.value.id
+                    if c.func.attr in READD and r in clones and READD[c.func.attr] in colls and f.node.name == "_compile":
+                        adds.setdefault((r, READD[c.func.attr]), c)
+                    elif c.func.attr in READD_ITEM and r in (clones | parts) and READD_ITEM[c.func.attr] in colls:
+                        adds.setdefault((r, READD_ITEM[c.func.attr]), c)
+            for (np_, coll), c in sorted(adds.items()):
+                if any(isinstance(x, ast.Name) and x.id == np_ for x in ast.walk(l.iter)):
+                    continue  # iterating the clone's own collection is another idiom
+                n += 1
+                cfg = cfg or cfg_of(f)
+                clears = {nd for nd, cc in cfg_nodes_with_call(cfg, "clear_" + coll) if isinstance(cc.func, ast.Attribute) and norm(cc.func.value) == np_}
+                heads = [nd for nd in cfg.nodes if nd.kind == "for" and nd.owner is l]
+                w = cfg.path_avoiding(cfg.entry, heads[0], clears) if heads else None
+                ok = bool(clears) and w is None
+                rep.check(ok, rule, f"{np_}.{coll} is emptied before the rewritten {coll} are added", f.loc(l), construct=f"for … in {norm(l.iter)[:50]}: {np_}.{c.func.attr}(…) " + (f"after {np_}.clear_{coll}()" if ok else f"without {np_}.clear_{coll}() on every path"), detail="" if ok else f"{np_} is a clone of the input: its {coll} are still the original ones when the rewritten ones are added, so the result contains both — the features the compiler is declared to remove are still there (the declared resulting kind under-approximates) and the following pipeline stage can reject the problem", function=f.qualname)
+    rep.count("rebuilt_collections", n)
+    rep.require_min(rule, "rebuilt_collections", 10)
+
+
 def c09(idx: Index, rep: Report, tier: str) -> None:
     bounded_type_selection(idx, rep, "C09.6 T15 bounded-type-selection")
     undefined_fluents_all_handled(idx, rep, "C09.7 T1 undefined-fluents-all-handled")
+    rebuilt_collections_cleared(idx, rep, "C09.8 T2 rebuilt-collections-are-cleared-first")
 
 
 
